@@ -92,20 +92,96 @@ theorem candsFrom_none (i : Nat) (ps : List PPar) (h : ∀ p ∈ ps, p.ty = 0) :
     simp only [h0, bne_self_eq_false, Bool.false_eq_true, ↓reduceIte]
     exact ih (i + 1) fun q hq => h q (List.mem_cons_of_mem _ hq)
 
-/-! ## the element tree, id by id -/
+/-! ## the headings and lists the repaired tree emits show every id at most as often as the page -/
 
-theorem count_elementTree (ov : Box → Box → Bool) (hs ls ps : List Elem) (i : Nat) :
-    ((elementTree ov hs ls ps).flatMap (·.ids)).count i =
+/-- in a list without repeated values, a value belongs to one member only -/
+theorem nodup_flatMap_unique {α β : Type} (f : α → List β) {l : List α} (h : (l.flatMap f).Nodup)
+    {a b : α} (ha : a ∈ l) (hb : b ∈ l) {x : β} (hxa : x ∈ f a) (hxb : x ∈ f b) : a = b := by
+  induction l with
+  | nil => simp at ha
+  | cons c t ih =>
+    rw [List.flatMap_cons, List.nodup_append] at h
+    rcases h with ⟨_, ht, hd⟩
+    rcases List.mem_cons.mp ha with rfl | ha'
+    · rcases List.mem_cons.mp hb with rfl | hb'
+      · rfl
+      · exact absurd rfl (hd x hxa x (List.mem_flatMap.mpr ⟨b, hb', hxb⟩))
+    · rcases List.mem_cons.mp hb with rfl | hb'
+      · exact absurd rfl (hd x hxb x (List.mem_flatMap.mpr ⟨a, ha', hxa⟩))
+      · exact ih ht ha' hb'
+
+theorem candsFrom_mem (i : Nat) (ps : List PPar) (c : Nat × PPar) (h : c ∈ candsFrom i ps) : c.2 ∈ ps := by
+  induction ps generalizing i with
+  | nil => simp [candsFrom] at h
+  | cons p r ih =>
+    unfold candsFrom at h
+    split at h
+    · rcases List.mem_cons.mp h with rfl | h'
+      · exact List.mem_cons_self
+      · exact List.mem_cons_of_mem _ (ih (i + 1) h')
+    · exact List.mem_cons_of_mem _ (ih (i + 1) h)
+
+/-- an item of a list is a page paragraph, and the list shows all its ids -/
+theorem listElems_item (maxGap : Rat) (minItems : Nat) (ps : List PPar) (i : Nat)
+    (h : i ∈ (listElems maxGap minItems ps).flatMap (·.ids)) :
+    ∃ q ∈ ps, i ∈ q.ids ∧ ∀ j ∈ q.ids, j ∈ (listElems maxGap minItems ps).flatMap (·.ids) := by
+  unfold listElems at h ⊢
+  rw [map_listElem_ids] at h ⊢
+  rcases List.mem_flatMap.mp h with ⟨c, hc, hi⟩
+  refine ⟨c.2, candsFrom_mem 0 ps c ((groupIntoLists_flatten_sublist maxGap minItems _).subset hc), hi, ?_⟩
+  intro j hj
+  exact List.mem_flatMap.mpr ⟨c, hc, hj⟩
+
+/-- distinct ids on the page: the headings the tree emits and the lists together show an id at
+most as often as the page paragraphs do - a heading that shares an id with a list IS an item of
+that list (same page paragraph) and is left to the list -/
+theorem shown_le_page (ps : List PPar) (hn : (ps.flatMap (·.ids)).Nodup) (i : Nat) :
+    ((shownHeadings (headingElems ps) (listElems 2 2 ps)).flatMap (·.ids)).count i +
+      ((listElems 2 2 ps).flatMap (·.ids)).count i ≤ (ps.flatMap (·.ids)).count i := by
+  by_cases hl : i ∈ (listElems 2 2 ps).flatMap (·.ids)
+  · have h0 : ((shownHeadings (headingElems ps) (listElems 2 2 ps)).flatMap (·.ids)).count i = 0 := by
+      rw [List.count_eq_zero]
+      intro hm
+      rcases List.mem_flatMap.mp hm with ⟨e, he, hie⟩
+      unfold shownHeadings at he
+      rcases List.mem_filter.mp he with ⟨he1, he2⟩
+      unfold headingElems at he1
+      rcases List.mem_map.mp he1 with ⟨p, hp, rfl⟩
+      have hp' : p ∈ ps := (List.mem_filter.mp hp).1
+      rcases listElems_item 2 2 ps i hl with ⟨q, hq, hiq, hall⟩
+      have hpq : p = q := nodup_flatMap_unique (·.ids) hn hp' hq hie hiq
+      subst hpq
+      have hne : p.ids.isEmpty = false := by
+        cases hids : p.ids with
+        | nil => rw [hids] at hie; simp at hie
+        | cons _ _ => rfl
+      have hall' : (p.ids.all fun j => ((listElems 2 2 ps).flatMap (·.ids)).contains j) = true := by
+        rw [List.all_eq_true]
+        intro j hj
+        exact List.contains_iff_mem.mpr (hall j hj)
+      simp only [hne, hall', Bool.not_true, Bool.or_false] at he2
+      exact Bool.noConfusion he2
+    rw [h0, Nat.zero_add]
+    exact (listElems_ids_sublist 2 2 ps).count_le i
+  · rw [List.count_eq_zero.mpr hl, Nat.add_zero]
+    unfold shownHeadings
+    exact Nat.le_trans ((sublist_flatMap _ List.filter_sublist).count_le i)
+      ((headingElems_ids_sublist ps).count_le i)
+
+/-! ## the element tree before the repair 8ee0e52, id by id -/
+
+theorem count_elementTreeOld (ov : Box → Box → Bool) (hs ls ps : List Elem) (i : Nat) :
+    ((elementTreeOld ov hs ls ps).flatMap (·.ids)).count i =
       (hs.flatMap (·.ids)).count i + (ls.flatMap (·.ids)).count i +
         ((ps.filter fun p => !consumed ov hs ls p).flatMap (·.ids)).count i := by
-  unfold elementTree
+  unfold elementTreeOld
   rw [List.flatMap_append, List.flatMap_append, List.count_append, List.count_append]
 
-theorem mem_elementTree (ov : Box → Box → Bool) (hs ls ps : List Elem) (i : Nat) :
-    i ∈ (elementTree ov hs ls ps).flatMap (·.ids) ↔
+theorem mem_elementTreeOld (ov : Box → Box → Bool) (hs ls ps : List Elem) (i : Nat) :
+    i ∈ (elementTreeOld ov hs ls ps).flatMap (·.ids) ↔
       i ∈ hs.flatMap (·.ids) ∨ i ∈ ls.flatMap (·.ids) ∨
         ∃ p ∈ ps, consumed ov hs ls p = false ∧ i ∈ p.ids := by
-  unfold elementTree
+  unfold elementTreeOld
   rw [List.flatMap_append, List.flatMap_append, List.mem_append, List.mem_append, or_assoc]
   refine or_congr Iff.rfl (or_congr Iff.rfl ?_)
   rw [List.mem_flatMap]
